@@ -181,6 +181,102 @@ def binaryExprR : Nat → List (V E) → HRes E
       | .panic => .panic
       | .fuel => .fuel
 
+/-! ## callbacks with state: the ORDER in which the helpers call `fn`
+
+`ListOp`, `RangeOp` and `BinaryOp` take a Go closure, whose effects (numbering, logging,
+duplicate detection, emitted code) depend on the order of the calls.  Here the callback is
+a state transformer `σ → … → σ × result`; the helpers thread the state through their calls in
+exactly the order the Go code makes them, and return the final state together with the outcome
+(after a panic: the state reached by the calls made before it). -/
+
+variable {σ : Type}
+
+/-- the loop of `ListOp`: `ret[i+1] = fn(v.([]any)[1])`, first to last -/
+def mapSecondsS {β : Type} (f : σ → V α → σ × β) : σ → List (V α) → σ × HRes (List β)
+  | s, [] => (s, .ok [])
+  | s, v :: rest =>
+    match second v with
+    | .ok y =>
+      let r := f s y
+      match mapSecondsS f r.1 rest with
+      | (s2, .ok ys) => (s2, .ok (r.2 :: ys))
+      | (s2, .panic) => (s2, .panic)
+      | (s2, .fuel) => (s2, .fuel)
+    | .panic => (s, .panic)
+    | .fuel => (s, .fuel)
+
+/-- `tpl.ListOp(in, fn)` with a stateful `fn`: `fn(in[0])` first, then the loop. -/
+def listOpS {β : Type} (f : σ → V α → σ × β) (s : σ) : List (V α) → σ × HRes (List β)
+  | x :: .list next :: _ =>
+    let r := f s x
+    match mapSecondsS f r.1 next with
+    | (s2, .ok ys) => (s2, .ok (r.2 :: ys))
+    | (s2, .panic) => (s2, .panic)
+    | (s2, .fuel) => (s2, .fuel)
+  | _ => (s, .panic)
+
+/-- the loop of `RangeOp` -/
+def rangeSecondsS (f : σ → V α → σ) : σ → List (V α) → σ × Bool
+  | s, [] => (s, false)
+  | s, v :: rest =>
+    match second v with
+    | .ok y => rangeSecondsS f (f s y) rest
+    | _ => (s, true)
+
+/-- `tpl.RangeOp(in, fn)` with a stateful `fn`: final state and whether it panicked. -/
+def rangeOpS (f : σ → V α → σ) (s : σ) : List (V α) → σ × Bool
+  | x :: .list next :: _ => rangeSecondsS f (f s x) next
+  | _ => (s, true)
+
+/-- the loop of `BinaryOpNR` -/
+def foldOpsS (fn : σ → Nat → V α → V α → σ × V α) : σ → V α → List (V α) → σ × HRes (V α)
+  | s, acc, [] => (s, .ok acc)
+  | s, acc, v :: rest =>
+    match opAndY v with
+    | .ok (o, y) => let r := fn s o acc y; foldOpsS fn r.1 r.2 rest
+    | .panic => (s, .panic)
+    | .fuel => (s, .fuel)
+
+/-- `tpl.BinaryOpNR(in, fn)` with a stateful `fn`. -/
+def binaryOpNRS (fn : σ → Nat → V α → V α → σ × V α) (s : σ) : List (V α) → σ × HRes (V α)
+  | x :: .list next :: _ => foldOpsS fn s x next
+  | _ => (s, .panic)
+
+def operandWithS (recur : σ → List (V α) → σ × HRes (V α)) (s : σ) : V α → σ × HRes (V α)
+  | .list l => recur s l
+  | o => (s, .ok o)
+
+/-- the loop of `BinaryOpR`: the operand `y` is evaluated (its nested calls happen) before
+`fn(op, ret, y)` -/
+def foldOpsRS (operand : σ → V α → σ × HRes (V α)) (fn : σ → Nat → V α → V α → σ × V α) :
+    σ → V α → List (V α) → σ × HRes (V α)
+  | s, acc, [] => (s, .ok acc)
+  | s, acc, v :: rest =>
+    match opAndY v with
+    | .ok (o, y) =>
+      match operand s y with
+      | (s1, .ok y') => let r := fn s1 o acc y'; foldOpsRS operand fn r.1 r.2 rest
+      | (s1, .panic) => (s1, .panic)
+      | (s1, .fuel) => (s1, .fuel)
+    | .panic => (s, .panic)
+    | .fuel => (s, .fuel)
+
+/-- `tpl.BinaryOpR(in, fn)` with a stateful `fn`. -/
+def binaryOpRS (fn : σ → Nat → V α → V α → σ × V α) : Nat → σ → List (V α) → σ × HRes (V α)
+  | 0, s, _ => (s, .fuel)
+  | fuel + 1, s, inp =>
+    let operand := operandWithS (binaryOpRS fn fuel)
+    match inp with
+    | [] => (s, .panic)
+    | x :: rest =>
+      match operand s x with
+      | (s1, .ok x') =>
+        match rest with
+        | .list next :: _ => foldOpsRS operand fn s1 x' next
+        | _ => (s1, .panic)
+      | (s1, .panic) => (s1, .panic)
+      | (s1, .fuel) => (s1, .fuel)
+
 /-! ## sequences of helper calls on the same match result
 
 The Go helpers receive the match result by reference (`[]any`); the property speaks about
@@ -193,25 +289,26 @@ inductive HOp where
   | list | listop | rangeop | bopnr | bopr
   deriving DecidableEq, Repr, Inhabited
 
-inductive HOut (α : Type) where
-  | lst (r : HRes (List (V α)))
+inductive HOut (σ α : Type) where
+  | lst (s : σ) (r : HRes (List (V α)))        -- final callback state, returned list
   | visited (vs : List (V α)) (panicked : Bool)
-  | val (r : HRes (V α))
+  | val (s : σ) (r : HRes (V α))
 
-/-- One helper call (`wrapf`: callback of `ListOp`, `fn`: callback of `BinaryOp`). -/
-def applyOp (wrapf : V α → V α) (fn : Nat → V α → V α → V α) (fuel : Nat) (op : HOp)
-    (inp : List (V α)) : HOut α :=
+/-- One helper call with stateful callbacks starting in state `s0` (`wrapf`: callback of
+`ListOp`, `fn`: callback of `BinaryOp`). -/
+def applyOp (wrapf : σ → V α → σ × V α) (fn : σ → Nat → V α → V α → σ × V α) (s0 : σ) (fuel : Nat)
+    (op : HOp) (inp : List (V α)) : HOut σ α :=
   match op with
-  | .list => .lst (listOf inp)
-  | .listop => .lst (listOp wrapf inp)
+  | .list => .lst s0 (listOf inp)
+  | .listop => let r := listOpS wrapf s0 inp; .lst r.1 r.2
   | .rangeop => let r := rangeOp inp; .visited r.1 r.2
-  | .bopnr => .val (binaryOpNR fn inp)
-  | .bopr => .val (binaryOpR fn fuel inp)
+  | .bopnr => let r := binaryOpNRS fn s0 inp; .val r.1 r.2
+  | .bopr => let r := binaryOpRS fn fuel s0 inp; .val r.1 r.2
 
-/-- What successive helper calls on the same result tree return. -/
-def seqOuts (wrapf : V α → V α) (fn : Nat → V α → V α → V α) (fuel : Nat) (ops : List HOp)
-    (inp : List (V α)) : List (HOut α) :=
-  ops.map fun op => applyOp wrapf fn fuel op inp
+/-- What successive helper calls on the same result tree return (each with a fresh callback state). -/
+def seqOuts (wrapf : σ → V α → σ × V α) (fn : σ → Nat → V α → V α → σ × V α) (s0 : σ) (fuel : Nat)
+    (ops : List HOp) (inp : List (V α)) : List (HOut σ α) :=
+  ops.map fun op => applyOp wrapf fn s0 fuel op inp
 
 /-- `BinaryExpr(recursive, in)`. -/
 def applyExprOp (fuel : Nat) (recursive : Bool) (inp : List (V E)) : HRes E :=
